@@ -297,6 +297,7 @@ package factory
 
 //@ func (*defaultFactory).Refresh
 //@ property C05 C10 C13 C09
+//@ implements container.Factory
 //@ requires [inv] FInv(f) && !Reg(f).HasHole
 //@ requires [nothing-in-creation] forall(n, string, !Reg(f).IC[n])
 //@ assigns RegFrame(Reg(f)), CreationFrame(), MetasPos, SortPerm, SortInv, CreatedLen, CreatedAt, Refreshed, NamesSrc, NamesPos
